@@ -479,6 +479,28 @@ def obligations(tier):
                                distance_fn(ka, kb, sa, sb, dt), P2, pre1, budget=bud, cost=c,
                                desc="distance_to(%s) equals the documented closed form of the end points" % dt.name,
                                bounds=bnd, examples=[_ex2(ka, kb)]))
+    if quick:
+        # cheap extras beyond the quick shape bound: full_span comparisons only look at spans (few paths even for 2x2),
+        # INNER distance on 3x2 blocks
+        P = _params2(2, 2, {"p": int})
+        pre = _pre2(2, 2)
+        ex = [_ex2(2, 2, p=5)]
+        bnd = "operands 2 x 2 blocks, lengths>=0, gaps>=0, unbounded ints"
+        for sa, sb in ((PLUS, PLUS), (PLUS, MINUS)):
+            st = "%s_%s" % (sname(sa), sname(sb))
+            for ms in (False, True):
+                tag = "2x2_%s_ms%d_fs1" % (st, ms)
+                out.append(Obl("has_overlap_" + tag, has_overlap_fn(2, 2, sa, sb, ms, True), P, pre, budget=300, cost=20,
+                               desc="has_overlap(full_span) == spans overlap", bounds=bnd, examples=ex))
+                out.append(Obl("intersection_" + tag, intersection_fn(2, 2, sa, sb, ms, True), P, pre, budget=300, cost=20,
+                               desc="intersection(full_span): p in result <=> p in both spans", bounds=bnd, examples=ex))
+                out.append(Obl("contains_" + tag, contains_fn(2, 2, sa, sb, ms, True), P, pre, budget=300, cost=20,
+                               desc="contains(full_span) <=> span(A) contains span(B)", bounds=bnd, examples=ex))
+        for ka, kb in ((3, 2), (2, 3), (2, 2)):
+            out.append(Obl("distance_INNER_%dx%d_plus_plus" % (ka, kb), distance_fn(ka, kb, PLUS, PLUS, DistanceType.INNER),
+                           _params2(ka, kb, {}), _pre2(ka, kb, min_len=1), budget=400, cost=60,
+                           desc="distance_to(INNER) == min over block pairs (0 when overlapping)",
+                           bounds="operands %d x %d non-empty blocks, unbounded ints" % (ka, kb), examples=[_ex2(ka, kb)]))
     # parent flags
     P = _params2(1, 1, {"p": int})
     for kind in ("none", "same", "mismatch", "one_none"):
